@@ -136,12 +136,16 @@ template<typename K> struct TupleExec {
     if (pp == 1.0f && n.all.size() <= static_cast<size_t>(k)) ctx.require(theta == MAXT && s.get_estimate() == static_cast<double>(n.all.size()), fp("not-exact-within-nominal-size").c_str(), w);
   }
 
-  template<typename F> void deliver(const U& sk, int form, bool rvalue, F&& f) {
-    switch (form % 4) {
-      case 0: if (rvalue) { U tmp(sk); f(std::move(tmp)); } else f(sk); break;
-      case 1: { C c = sk.compact(true); if (rvalue) f(std::move(c)); else f(c); break; }
-      case 2: { C c = sk.compact(false); if (rvalue) f(std::move(c)); else f(c); break; }
-      default: { C c = sk.compact(true); C c2(c); f(std::move(c2)); break; }
+  // physical forms of an operand. By reference it comes as const or as NON-const lvalue (an operation must not take anything out of an lvalue it was
+  // only lent), and a compact operand delivered by reference must still hold what it held
+  template<typename F> void deliver(U& sk, int form, bool rvalue, F&& f) {
+    switch (form % 6) {
+      case 0: if (rvalue) { U tmp(sk); f(std::move(tmp)); } else f(const_cast<const U&>(sk)); break;
+      case 1: { C c = sk.compact(true); if (rvalue) f(std::move(c)); else { const C& cc = c; f(cc); } break; }
+      case 2: { C c = sk.compact(false); if (rvalue) f(std::move(c)); else { const C& cc = c; f(cc); } break; }
+      case 3: { C c = sk.compact(true); C c2(c); f(std::move(c2)); break; }
+      case 4: f(sk); ctx.probe("operand_as_non_const_lvalue"); break;   // the update sketch itself: check_node() compares it with the model after the step
+      default: { C c = sk.compact((form / 6) & 1); const MTuple before = observe(c); f(c); compare(observe(c), before, "operand-lent-by-reference-was-modified"); ctx.probe("operand_as_non_const_lvalue"); break; }
     }
   }
 
